@@ -294,12 +294,35 @@ PROPS["C16"] = {
     "assumptions": [],
 }
 
+PROPS["C19"] = {
+    "claim": "HTML5 serialisation returns without panicking, starts with the doctype, writes HTML / XHTML / MathML / SVG elements "
+             "unprefixed, never self-closes HTML elements, gives void elements (any letter case) no end tag and all others one, "
+             "puts MathML / SVG under a default-namespace declaration, escapes '<' and '&' from text except in script / style / "
+             "requested CDATA, never leaves a raw '\"' or '&' in attribute values and refuses a processing instruction with '>'",
+    "harnesses": [
+        H("h_c19_names", {"SYMT": 1, "NAMES": 16}, {"SYMT": 2, "NAMES": 16},
+          shards={"quick": shard_product(("nm", 16), ("nk", 3)), "thorough": shard_product(("nm", 16), ("nk", 3), ("ind", 3))}),
+        H("h_c19_attrs", {"SYMA": 2, "SYMA2": 1}, {"SYMA": 3, "SYMA2": 2},
+          shards={"quick": shard_product(("nk", 2), ("extra", 4), ("el", 2)), "thorough": shard_product(("nk", 2), ("extra", 4), ("el", 2), ("ind", 2))}),
+        H("h_c19_embedded", shards={"quick": shard_product(("shape", 4), ("top", 3)), "thorough": shard_product(("shape", 4), ("top", 3))}),
+        H("h_c19_loose", {"SYMT": 2}, {"SYMT": 3}, shards={"quick": shard_choose("what", 7), "thorough": shard_choose("what", 7)}),
+        H("h_c19_pi", {"PILEN": 3}, {"PILEN": 4}, shards={"quick": shard_choose("where", 3), "thorough": shard_product(("where", 3), ("len", 4))}),
+    ],
+    "bounds": {"quick": "16 element names (void / phrasing / formatted / raw-text / unknown, lower, upper and mixed case) x no namespace, "
+                        "XHTML default, XHTML prefixed, holding one symbolic char of text, with / without CDATA request, 3 indentation "
+                        "settings, document and element as the serialised node; attribute values of 2 symbolic chars (1 + 1 with a namespaced "
+                        "attribute), boolean candidates; 4 MathML / SVG shapes x 3 serialised nodes; text under a document and 6 kinds of "
+                        "single node with 2 symbolic chars; processing instruction data of <= 2 symbolic chars at 3 positions",
+               "thorough": "text 2, attribute 3, loose text 3, PI data <= 3 symbolic chars"},
+    "outside": "longer contents; other tree shapes; normalizers; names outside the 16; the matcher is silent about which namespace "
+               "declarations are written, boolean attribute minimisation, '>' / U+00A0 spelling and where indentation goes",
+    "assumptions": [],
+}
+
 PROPS["DBG"] = {
-    "claim": "debug probes", "harnesses": [H("h_probe_tree"), H("h_probe_tostring"), H("h_probe_parse")],
+    "claim": "debug probes", "harnesses": [H("h_probe_tree"), H("h_probe_tostring"), H("h_probe_parse"), H("h_probe_html")],
     "bounds": {"quick": "-", "thorough": "-"}, "outside": "", "assumptions": [],
 }
 
 _WIP = "check not built yet (work in progress; will be claimed or given its final reason before the end)"
 NOT_APPLICABLE = {("C%02d" % i): _WIP for i in range(1, 21)}
-NOT_APPLICABLE["C16"] = ("every clause compares whole outputs of generator-driven (genawaiter coroutine) serialisation "
-                         "entry points through io::Write/format!; no kernel-level residue the encoder reaches")
